@@ -3,9 +3,9 @@ import lib
 from props import pgen, pstack
 
 ID = 'C09'
-GEN_FILES = ['T_parser', 'T_fmtspaces']
+GEN_FILES = ['T_parser', 'T_fmtspaces', 'T_pins_parser', 'T_pins_luawriter']
 COQ_PROPERTY = 'theories/Properties/C09.vo'
-COQ_EXTRA = ['theories/Generated/T_parser_selftest.vo']
+COQ_EXTRA = ['theories/Proofs/ParserPins.vo', 'theories/Proofs/AstWriterPins.vo', 'theories/Generated/T_parser_selftest.vo']
 MODEL = ('ExC09', ['lua_io.ml', 'c09_main.ml'])
 MONITOR = ('MonC09', ['lua_io.ml', 'c09_mon_main.ml'])
 CASE_TIMEOUT = 180
